@@ -5,7 +5,7 @@
    for the generated predicate.  If the .pyx changes its meaning, either
    [gen_cross_is_model] stops compiling or the correspondence run disagrees. *)
 From Coq Require Import ZArith QArith List Bool Lqa.
-From Verif Require Import Model.C15 Proofs.C15 Proofs.C15_sweep Proofs.C15_copy Gen.PnpolyGen.
+From Verif Require Import Model.C15 Proofs.C15 Proofs.C15_rays Proofs.C15_winding Proofs.C15_copy Proofs.C15_persist Gen.PnpolyGen.
 Import ListNotations.
 Open Scope Q_scope.
 
@@ -73,14 +73,33 @@ Lemma gen_invert_complement poly pts :
        /\ nth_error (gen_filter true poly pts) k = Some (negb (gen_pip poly p)).
 Proof. apply invert_complement. Qed.
 
-Lemma gen_sweep zpoly zp :
-  (length zpoly = 3%nat /\ Forall (fun v => In v (zgrid 4)) zpoly /\ In zp (zquery 4))
-  \/ (length zpoly = 4%nat /\ Forall (fun v => In v (zgrid 3)) zpoly /\ In zp (zquery 3)) ->
-  on_boundary (map inj zpoly) (inj zp) = false ->
-  gen_pip (map inj zpoly) (inj zp) = winding_odd (map inj zpoly) (inj zp)
-  /\ gen_pip (map inj zpoly) (inj zp) = pip cross_left (map inj zpoly) (inj zp)
-  /\ (winding4 (map inj zpoly) (inj zp) mod 4 = 0)%Z.
-Proof. rewrite gen_pip_model. apply sweep_theorem_z. Qed.
+(* the result is the parity of the winding number, for every polygon *)
+Lemma gen_winding_parity poly p :
+  on_boundary poly p = false ->
+  gen_pip poly p = winding_odd poly p /\ (winding4 poly p mod 4 = 0)%Z.
+Proof. rewrite gen_pip_model. apply winding_agrees. Qed.
+
+Lemma gen_left_ray poly p :
+  on_boundary poly p = false ->
+  gen_pip poly p = pip cross_left poly p
+  /\ ((forall v, In v poly -> ~ snd v == snd p) ->
+      gen_pip poly p = spec_inside poly p /\ spec_inside poly p = spec_inside_left poly p).
+Proof.
+  intros Hb. rewrite gen_pip_model. split; [now apply left_ray_agrees|].
+  intros Hg. split; [now apply generic_agrees|now apply left_right_generic].
+Qed.
+
+(* PolygonFilter.filter, with inversion, point by point *)
+Lemma gen_filter_winding inv poly pts k p :
+  nth_error pts k = Some p -> on_boundary poly p = false ->
+  nth_error (gen_filter inv poly pts) k = Some (xorb inv (winding_odd poly p)).
+Proof.
+  intros Hk Hb. destruct (gen_winding_parity poly p Hb) as [E _].
+  destruct (gen_invert_complement poly pts) as (_ & _ & H).
+  destruct (H k p Hk) as [H0 H1]. rewrite <- E.
+  destruct inv; cbn [xorb]; [exact H1|].
+  rewrite H0. now destruct (gen_pip poly p).
+Qed.
 
 Definition gen_apply := pf_apply gen_cross_pt.
 
@@ -95,3 +114,29 @@ Lemma gen_copy_invert_involution (f : pfilter Q) r r' pts :
   /\ f_inv Q g = f_inv Q f /\ f_ax Q g = f_ax Q f /\ f_ay Q g = f_ay Q f
   /\ f_name Q g = f_name Q f /\ f_pts Q g = f_pts Q f.
 Proof. split; [apply copy_invert_involution_filter|apply copy_invert_involution]. Qed.
+
+(* "every classification": the reloaded filters classify every point as the saved ones *)
+Lemma gen_roundtrip_classification
+      (fmtf : Q -> str) (parsef : str -> option Q) (fmt8 : Z -> str) (parse_int : str -> option Z) :
+  (forall v, parsef (fmtf v) = Some v) ->
+  (forall v, token_ok (fmtf v) = true) ->
+  (forall n, (0 <= n)%Z -> parse_int (fmt8 n) = Some n) ->
+  (forall n, (0 <= n)%Z -> digits_ok (fmt8 n) = true) ->
+  forall (fs : list (pfilter Q)) (ids0 : list Z) (c0 : Z),
+    Forall (fun f => wf_filter f = true) fs ->
+    NoDup (map (f_id Q) fs) ->
+    (forall f, In f fs -> ~ In (f_id Q f) ids0) ->
+    exists fs' r',
+      import_all Q parsef parse_int (save_all Q fmtf fmt8 fs) (ids0, c0) = (LOk fs', r')
+      /\ length fs' = length fs
+      /\ forall k f f' pts, nth_error fs k = Some f -> nth_error fs' k = Some f' ->
+           gen_apply f' pts = gen_apply f pts /\ f_inv Q f' = f_inv Q f
+           /\ f_id Q f' = f_id Q f /\ f_name Q f' = f_name Q f
+           /\ f_ax Q f' = f_ax Q f /\ f_ay Q f' = f_ay Q f.
+Proof.
+  intros H1 H2 H3 H4 fs ids0 c0 Hwf Hnd Hnew.
+  destruct (roundtrip_partial Q fmtf parsef fmt8 parse_int H1 H2 H3 H4 fs ids0 c0 Hwf Hnd Hnew)
+    as [c' E].
+  exists fs, (ids0 ++ map (f_id Q) fs, c'). split; [exact E|]. split; [reflexivity|].
+  intros k f f' pts Hf Hf'. rewrite Hf in Hf'. injection Hf' as <-. repeat split.
+Qed.
